@@ -32,6 +32,44 @@ def wfc_element_type_match(facts):
                     return False, "the names of start and end tag are not compared themselves (a value derived from them is)"
                 if bins:
                     return False, "the predicate that compares the names of start and end tag is not a single equality (operators %s)" % [b["op"] for b in bins]
+    # the same constraint written out: `let (rest, start) = stag(input)?; .. let (rest, end) = etag(rest)?;
+    # if start.name == end { Ok(..) } else { Err(..) }` in element or in a parser element calls
+    cands = [f]
+    for n in walk(f["body"]):
+        if n.get("k") == "Path":
+            g = facts.fns.get(n.get("rid") or n.get("id"))
+            if g is not None and "body" in g and g["crate"] == "xml_parser" and g not in cands and "nom::Err<" in str(g.get("sig", "")):
+                cands.append(g)
+    for g in cands:
+        bound = {}
+        for n in walk(g["body"]):
+            if n.get("s") == "Let" and "init" in n and n["pat"].get("p") == "Tuple" and len(n["pat"].get("pats", [])) == 2:
+                calls = [str(m["f"].get("path", "")) for m in walk(n["init"]) if m.get("k") == "Call" and m["f"].get("k") == "Path"]
+                v = n["pat"]["pats"][1]
+                for which in ("stag", "etag"):
+                    if "xml_parser::" + which in calls and v.get("p") == "Bind":
+                        bound[v["lid"]] = which
+        if set(bound.values()) != {"stag", "etag"}:
+            continue
+
+        def side(x):
+            while isinstance(x, dict) and x.get("k") in ("AddrOf", "Deref", "Unary"):
+                x = x.get("a") or x.get("e")
+            if isinstance(x, dict) and x.get("k") == "Field" and x.get("name") == "name":
+                x = x["a"]
+                while isinstance(x, dict) and x.get("k") in ("AddrOf", "Deref", "Unary"):
+                    x = x.get("a") or x.get("e")
+            return bound.get(x.get("lid")) if isinstance(x, dict) and x.get("k") == "Path" and x.get("res") == "Local" else None
+        has_err = lambda b: any(m.get("k") == "Call" and str(m["f"].get("path", "")).endswith("::Err") for m in walk(b))
+        has_ok = lambda b: any(m.get("k") == "Call" and str(m["f"].get("path", "")).endswith("::Ok") for m in walk(b))
+        for n in walk(g["body"]):
+            if n.get("k") == "If" and n["cond"].get("k") == "Binary" and n["cond"].get("op") in ("==", "!="):
+                c = n["cond"]
+                if {side(c["a"]), side(c["b"])} == {"stag", "etag"}:
+                    accept, reject = (n["then"], n.get("else")) if c["op"] == "==" else (n.get("else"), n["then"])
+                    if reject is not None and has_err(reject) and not has_ok(reject):
+                        return True, "%s compares the names of start and end tag and answers Err when they differ" % g["path"]
+                    return False, "%s compares the names of start and end tag but does not reject a mismatch" % g["path"]
     return False, "no equality test between the names of stag and etag in xml_parser::element"
 
 
